@@ -396,13 +396,18 @@ func (s *Syncer) handleRPC(id types.Specifier, stream *gateway.Stream, origin *P
 		bid := r.Block.ID(cs)
 		if _, ok := s.cm.State(bid); ok {
 			return nil // already seen
-		} else if bid.CmpWork(cs.PoWTarget()) < 0 {
-			return s.ban(origin, errors.New("peer sent v2 outline with insufficient work"))
 		} else if r.Block.ParentID != s.cm.Tip().ID {
 			// block extends a sidechain, which peer (if honest) believes to be the
 			// heaviest chain
+			//
+			// NOTE: this must be checked before the outline's work: the ID of an
+			// outline commits to the parent's full state, and for a sidechain
+			// parent we may only have the header-derived state, in which case
+			// the computed ID (and thus its work) is meaningless.
 			s.resync(origin, "peer relayed a v2 outline that does not attach to our tip")
 			return nil
+		} else if bid.CmpWork(cs.PoWTarget()) < 0 {
+			return s.ban(origin, errors.New("peer sent v2 outline with insufficient work"))
 		}
 		log.Debug("received v2 block outline", zap.Stringer("blockID", bid), zap.Stringer("origin", origin))
 		// block has sufficient work and attaches to our tip, but may be missing
